@@ -42,6 +42,10 @@ package crypto
 //@   ensures  [forbidden] !options.AllowCryptoHandshake ==> err != nil
 //@   ensures  [forced]    old(options.ForceEncryption) && err == nil ==> conn != c
 //@   ensures  [plain]     !old(options.AllowEncryption) && err == nil ==> conn == c
+// NOT claimed (attempted, backed out): "when the peer selects plaintext the
+// surplus handed on is Tail(buf, c)" -- synchronise now carries the positional
+// clause ([tailout]), but the chain ReadAtLeast / slice / synchronise / readMore
+// through this 150-line function was not discharged within the time limit.
 //@   focus    post:forbidden, post:forced, post:plain
 //@   props    C08
 
@@ -67,15 +71,35 @@ package crypto
 // more as needed; whatever it returns is a suffix of (w followed by exactly
 // the bytes received): nothing that was not received, nothing dropped except
 // the part up to and including the pattern.
+// Assumed (package-local) contracts of the two library functions that are
+// handed slices of the receive buffer: big.Int.SetBytes only reads its
+// argument; rc4's XORKeyStream writes dst (only) and panics when dst is
+// shorter than src.
+//@ extern math/big.(*Int).SetBytes
+//@   import "math/big"
+//@   sig func(z *big.Int, buf []byte) (r *big.Int)
+//@   modifies heap:math/big.*
+//@ extern crypto/rc4.(*Cipher).XORKeyStream
+//@   import "crypto/rc4"
+//@   sig func(c *rc4.Cipher, dst []byte, src []byte)
+//@   requires len(dst) >= len(src)
+//@   modifies dst[_], heap:crypto/rc4.*
+
+// Tail(w, c): w is, byte for byte, the LAST len(w) bytes taken out of stream c.
+//@ spec Tail(w []byte, c any) bool
+//@   body forall k int :: 0 <= k && k < len(w) ==> w[k] == streamAt(c, consumed(c) - len(w) + k)
+
 //@ func synchronise
 //@   requires c != nil && n >= 0 && m >= 0 && n <= 1<<20 && m <= 1<<20 && len(w) <= 1<<20
 //@   modifies consumed(c), w[__]
+//@   ensures  [tailout] old(Tail(w, c)) ==> Tail($r0, c)
 //@   ensures  [tail] len($r0) <= old(len(w)) + (consumed(c) - old(consumed(c)))
 //@   ensures  [fail] $r1 != nil ==> len($r0) == old(len(w)) + (consumed(c) - old(consumed(c)))
 //@   ensures  [cap]  len($r0) <= max(old(len(w)), max(n, m))
 //@   loop 1
 //@     invariant len(w) == old(len(w)) + (consumed(c) - old(consumed(c))) && len(w) <= max(old(len(w)), max(n, m)) && m >= n && m <= 1<<20
 //@     invariant (samearr_(w, old(w)) && cap(w) == old(cap(w))) || fresh_(w)
+//@     invariant [tail] old(Tail(w, c)) ==> Tail(w, c)
 //@   props    C07
 
 // Assumed (package-local) contract of sync.Pool.Get for the one pool of this
